@@ -1210,6 +1210,10 @@ class Exec:
 
     def opaque_hook(s, name, v):
         """contract-directed generalisation: a named intermediate is replaced by fresh symbols (value) with its exact tangent kept"""
+        if 'opaque_value' in s.cb:
+            r = s.cb['opaque_value'](name, v)      # value-directed generalisation (independent of how the code names its locals)
+            if r is not None:
+                return r
         if name in s.cb.get('opaque', ()):
             if isinstance(v, Mx):
                 out = Mx(v.r, v.c, arr=v.arr)
